@@ -54,26 +54,32 @@ const (
 
 // release gives up the holder's spot in ch.
 func (h *holder) release() {
+	verifAt("release.enter", h)
 	// If we currently are acquired, release the token. Otherwise, we are either
 	// blocked or already released.
 	if atomic.SwapInt64(&h.status, released) == acquired {
+		verifAt("release.recv", h)
 		<-h.l.ch
 	}
 }
 
 // block temporarily gives up the holder's spot in ch while running f.
 func (h *holder) block(f func()) {
+	verifAt("block.enter", h)
 	// If we are currently acquired, temporarily release the token. Otherwise,
 	// we are either blocked or released.
 	if atomic.CompareAndSwapInt64(&h.status, acquired, blocked) {
+		verifAt("block.recv", h)
 		<-h.l.ch
 
 		// Before returning from f() we must reacquire.
 		defer func() {
+			verifAt("block.defer", h)
 			// If we are still blocked, re-acquire. Otherwise, we just got got released
 			// (and that release used our token we gave up), and should no longer try to
 			// re-acquire.
 			if atomic.CompareAndSwapInt64(&h.status, blocked, acquired) {
+				verifAt("block.send", h)
 				h.l.ch <- struct{}{}
 			}
 		}()
@@ -96,6 +102,7 @@ func Acquire(ctx context.Context) (context.Context, ReleaseFunc) {
 		return ctx, func() {}
 	}
 
+	verifAtLimiter("acquire.enter", l)
 	select {
 	case l.ch <- struct{}{}:
 	case <-ctx.Done():
